@@ -32,6 +32,10 @@ type DM = DenseMatrix<f64>;
 // alphabets (seed 0 = the plain alphabets of DESIGN §4 C11; seeds 1..7 select other complete spaces)
 
 const G_BASE: [f64; 4] = [-1.0, 0.0, 2.0, 5.0];
+/// Gaussian "tight, well-separated clusters" alphabet (flag `real` on a Gaussian job): class spreads
+/// of 1/8 at a separation of 8, i.e. query rows whose columns come from different classes lie tens
+/// of standard deviations from a class mean.
+const G_TIGHT: [f64; 4] = [0.0, 0.125, 8.0, 8.125];
 const G_XFORM: [(f64, f64); 8] = [(1.0, 0.0), (1.0, 0.25), (3.0, 0.0), (0.5, -0.5), (1024.0, 0.0), (1.0 / 1024.0, 0.0), (1.0, 7.0), (-1.0, 0.5)];
 const M_ALPH: [[f64; 4]; 8] = [
     [0.0, 1.0, 2.0, 3.0],
@@ -61,6 +65,7 @@ const ALPHAS: [[f64; 3]; 8] = [
 fn alphabet(v: V, real: bool, seed: u64, asz: usize) -> Vec<f64> {
     let s = (seed % 8) as usize;
     let a: Vec<f64> = match v {
+        V::G if real => G_TIGHT.iter().map(|x| x * G_XFORM[s].0 + G_XFORM[s].1).collect(),
         V::G => G_BASE.iter().map(|x| x * G_XFORM[s].0 + G_XFORM[s].1).collect(),
         V::M => M_ALPH[s].to_vec(),
         V::B if real => B_REAL.iter().map(|x| x + B_SHIFT[s]).collect(),
@@ -684,6 +689,10 @@ impl Harness for C11 {
         for &(n, p, k, a, part) in g {
             pl.lat(V::G, false, n, p, k, a, part);
         }
+        // tight, well-separated clusters: mixed query rows are tens of standard deviations from a class mean
+        for &(n, p, k, a, part) in if t { &[(4usize, 1usize, 2usize, 4usize, 1usize), (4, 2, 2, 4, 1), (5, 2, 2, 4, 3), (6, 1, 3, 4, 3)][..] } else { &[(4, 1, 2, 4, 1), (4, 2, 2, 4, 3)][..] } {
+            pl.lat(V::G, true, n, p, k, a, part);
+        }
         // ---- multinomial
         let m: &[(usize, usize, usize, usize)] = if t {
             &[(2, 1, 4, 1), (2, 2, 4, 1), (2, 3, 4, 1), (3, 1, 4, 1), (3, 2, 4, 1), (3, 3, 4, 3), (4, 1, 4, 1), (4, 2, 4, 3), (4, 3, 3, 0), (5, 1, 4, 1), (5, 2, 3, 0), (2, 4, 4, 1), (3, 4, 3, 0)]
@@ -779,7 +788,7 @@ impl Harness for C11 {
             bounds: json!({
                 "lattice": "every training set over the variant's alphabet with every labelling (G/M/B: onto k classes; Gaussian: every class >= 2 rows and non-zero variance; categorical: label values 0..3 with gaps) x configuration set; see NOTES.md for the (n,p,k,alphabet,config-set) list per tier",
                 "lattice_leaves_upper_bound": lattice_leaves,
-                "alphabets": {"gaussian": G_BASE, "multinomial": M_ALPH[(seed % 8) as usize], "bernoulli": "{0,1} (binarize none/0/0.5) and reals {-0.5,0.2,0.7,1.5} with thresholds {0,0.5,0.7,-0.7}", "categorical": C_ALPH, "alpha": ALPHAS[(seed % 8) as usize]},
+                "alphabets": {"gaussian": G_BASE, "gaussian_tight_clusters": G_TIGHT, "multinomial": M_ALPH[(seed % 8) as usize], "bernoulli": "{0,1} (binarize none/0/0.5) and reals {-0.5,0.2,0.7,1.5} with thresholds {0,0.5,0.7,-0.7}", "categorical": C_ALPH, "alpha": ALPHAS[(seed % 8) as usize]},
                 "label_maps": "0..k-1, {-3,7,10}, {2,3}/{1,2,4}, {-1,1}/{-2^40,5,2^52}",
                 "user_priors": "none + two dyadic prior vectors per k",
                 "queries": "the full alphabet^p lattice (categorical: every in-range code); judged when every value occurred in that column of the training set",
